@@ -784,8 +784,8 @@ def enc(ctx, flavours):
         n_calls = 0
         for q, b in sorted(F.bodies.items()):
             owner = re.sub(r'(::\{closure#\d+\})+$', '', q)
-            if owner in M.methods:
-                continue
+            if owner in M.methods or owner in getattr(F, 'absorbed', ()):
+                continue   # (a private helper of an edge operation is judged as part of the operation it was spliced into)
             for bi, t in calls_in(b, lambda t: t.get('local') and t.get('res') in M.methods and M.muts(t['res'])):
                 n_calls += 1
                 ok = owner in allowed
